@@ -216,13 +216,16 @@ class Operation(ABC):
             backed_grad = self.grad_post_process_fn(backed_grad, var.shape)
             assert backed_grad.shape == var.shape, (backed_grad.shape, var.shape)
             if var._grad is None:
-                backed_grad = (
-                    np.copy(backed_grad)
+                if backed_grad.strides != var.data.strides:
+                    # lay the gradient out in memory like the data, so that the
+                    # views of `var` replay as views of its gradient
+                    laid_out = np.empty_like(var.data, dtype=backed_grad.dtype)
+                    np.copyto(laid_out, backed_grad)
+                    backed_grad = laid_out
+                elif backed_grad.base is not None or (backed_grad is grad):
                     # `backed_grad` is view of grad; we want to be able to
                     # augment tmp-grad inplace later
-                    if backed_grad.base is not None or (backed_grad is grad)
-                    else backed_grad
-                )
+                    backed_grad = np.copy(backed_grad)
                 if backed_grad.dtype != var.dtype:
                     backed_grad = backed_grad.astype(var.dtype, copy=False)
 
